@@ -477,7 +477,7 @@ func Run(tier, replay string) {
 	gLimit, allLimit, stride := 700, 1600, 37
 	if tier == "thorough" {
 		gPieces, tPieces = []int{0, 1, 2, 7, 64}, []int{0, 7}
-		gLimit, allLimit, stride = 3000, 12000, 5
+		gLimit, allLimit, stride = 3000, 12000, 6
 	}
 	var small []int
 	allOffsets := []string{}
